@@ -135,6 +135,15 @@ def gen_call(rng, tok, cid='a', kinds=None, invalid_p=0.1, version=None):
             if gsegs:
                 steps.append(['grp_text', g[0], gen.segment_text(rng, version, gsegs[0], ec, tok, fill=0.2)])
                 continue
+        if r > 0.95:
+            steps.append(['msg_value', gen.message_text(rng, version, s, ec, tok, ctrl='%sv%d' % (cid, tok.next()), opt_p=0.1, fill=0.15)])
+            continue
+        if grps and 0.12 <= r < 0.2:
+            g = rng.choice(grps)
+            gsegs = [c[0] for c in g[1][1] if c[3] == 'SEG' and T.seg_fields(version, c[0])] if g[1] and g[1][1] else []
+            if gsegs:
+                steps.append(['grp_value', g[0], gen.segment_text(rng, version, gsegs[0], ec, tok, fill=0.2)])
+                continue
         if flds and r > 0.85:
             f = rng.choice(flds)
             # the source is a parent-less segment parsed with the standard delimiters
@@ -325,6 +334,11 @@ def run_call(c, hook=None):
                         setattr(seg, st[2], st[3])
                     elif st[0] == 'grp_text':
                         setattr(m, st[1], st[2])
+                    elif st[0] == 'msg_value':
+                        m.value = st[1]
+                    elif st[0] == 'grp_value':
+                        g = m.add_group(st[1])
+                        g.value = st[2]
                     elif st[0] == 'copy_field':
                         src = P.parse_segment(st[3], version=c['version'], encoding_chars=_ec(0), validation_level=c['level'])
                         seg = getattr(m, st[1])
